@@ -78,7 +78,7 @@ def ensure_dump(crate, debug_assertions=False):
         # drop older dumps of the same crate
         olds = [o for o in glob.glob(os.path.join(CACHE, 'mir', f'{crate}-*')) if o not in (out, tmp) and not o.endswith('.tmp') and ('-da-' in o) == debug_assertions]
         olds.sort(key=os.path.getmtime)
-        for old in olds[:-6]: shutil.rmtree(old, ignore_errors=True)         # keep a few recent dumps (switching between trees is common)
+        for old in olds[:-12]: shutil.rmtree(old, ignore_errors=True)         # keep a few recent dumps (switching between trees is common)
         shutil.rmtree(out, ignore_errors=True); os.rename(tmp, out)
         info.update(cached=False, dump_s=round(time.time() - t0, 1), coroutines=n)
         log(f'dumped {crate}: {os.path.getsize(mir) >> 20} MB, {n} coroutine bodies, {info["dump_s"]} s')
